@@ -87,6 +87,7 @@ type Options struct {
 	StopWhen      func() bool // crash cut: abort the episode as soon as it returns true
 	SettleRounds  int         // idle periodic-timer rounds before Settle returns (default 3)
 	HorizonRounds int         // idle periodic-timer rounds before deadlock is declared (default 40)
+	Trace         bool        // record every scheduling point (debugging replays)
 }
 
 type Report struct {
@@ -102,6 +103,7 @@ type Report struct {
 	LiveLib     []string // library goroutines still alive when root returned
 	Spawned     int
 	Clock       int64
+	Trace       []string
 }
 
 type Sched struct {
@@ -419,6 +421,9 @@ func (s *Sched) point(what string) {
 		return
 	}
 	me := s.cur
+	if s.opt.Trace && len(s.rep.Trace) < 20000 {
+		s.rep.Trace = append(s.rep.Trace, fmt.Sprintf("%d g%d[%s] %s %s", s.steps, me.ID, me.Name, what, caller()))
+	}
 	s.steps++
 	me.steps++
 	if !me.Lib {
@@ -827,4 +832,20 @@ func NoSched(f func()) (ok bool) {
 	}()
 	f()
 	return true
+}
+
+func caller() string {
+	pcs := make([]uintptr, 12)
+	n := runtime.Callers(3, pcs)
+	fr := runtime.CallersFrames(pcs[:n])
+	for {
+		f, more := fr.Next()
+		if !strings.Contains(f.File, "/vrt/") && f.File != "" {
+			parts := strings.Split(f.File, "/")
+			return fmt.Sprintf("%s:%d", parts[len(parts)-1], f.Line)
+		}
+		if !more {
+			return ""
+		}
+	}
 }
